@@ -334,14 +334,87 @@ func c28Choice(rng *verifkit.Rand, h float64) any {
 	return ch
 }
 
+// c28Slot is one tunable leaf of a generated document, with the rule enclosing it (if any).
+type c28Slot struct {
+	m    map[string]any
+	k    string
+	rule map[string]any
+}
+
+var c28IntKeys = map[string]bool{"SampleRate": true, "GoalSampleRate": true, "GoalThroughputPerSec": true, "InitialSampleRate": true, "MaxKeys": true, "BurstDetectionDelay": true}
+var c28DurKeys = map[string]bool{"ClearFrequency": true, "AdjustmentInterval": true, "UpdateFrequency": true, "LookbackFrequency": true}
+var c28FloatKeys = map[string]bool{"Weight": true, "AgeOutValue": true, "BurstMultiple": true}
+
+func c28Slots(v any, rule map[string]any, out *[]c28Slot) {
+	switch x := v.(type) {
+	case map[string]any:
+		keys := make([]string, 0, len(x))
+		for k := range x {
+			keys = append(keys, k)
+		}
+		sort.Strings(keys)
+		for _, k := range keys {
+			if c28IntKeys[k] || c28DurKeys[k] || c28FloatKeys[k] {
+				*out = append(*out, c28Slot{x, k, rule})
+				continue
+			}
+			if k == "Rules" {
+				if rs, ok := x[k].([]any); ok {
+					for _, r := range rs {
+						if rm, ok := r.(map[string]any); ok {
+							c28Slots(rm, rm, out)
+						}
+					}
+				}
+				continue
+			}
+			c28Slots(x[k], rule, out)
+		}
+	case []any:
+		for _, e := range x {
+			c28Slots(e, rule, out)
+		}
+	}
+}
+
+// c28OneBad turns exactly one tunable of an otherwise well-formed document into a boundary /
+// wrong-shape value; half of the time the enclosing rule loses its conditions so that it
+// matches every trace and the value is actually used.
+func c28OneBad(rng *verifkit.Rand, samplers map[string]any) {
+	var slots []c28Slot
+	c28Slots(samplers, nil, &slots)
+	if len(slots) == 0 {
+		return
+	}
+	sl := slots[rng.Intn(len(slots))]
+	switch {
+	case c28IntKeys[sl.k]:
+		sl.m[sl.k] = c28Ints(rng)
+	case c28DurKeys[sl.k]:
+		sl.m[sl.k] = c28Duration(rng)
+	default:
+		sl.m[sl.k] = c28Float(rng)
+	}
+	if sl.rule != nil && rng.Bool() {
+		delete(sl.rule, "Conditions")
+	}
+}
+
 func c28Doc(rng *verifkit.Rand) string {
 	// hostility: fraction of fields drawn from the hostile generators
 	h := verifkit.Pick(rng, 0.0, 0.05, 0.1, 0.2, 0.4)
+	oneBad := rng.Chance(0.3)
+	if oneBad {
+		h = 0
+	}
 	samplers := map[string]any{"__default__": c28Choice(rng, h)}
 	for _, name := range []string{"env1", "ds.one", ""} {
 		if rng.Chance(0.4) {
 			samplers[name] = c28Choice(rng, h)
 		}
+	}
+	if oneBad {
+		c28OneBad(rng, samplers)
 	}
 	doc := map[string]any{"RulesVersion": 2, "Samplers": samplers}
 	b, err := yaml.Marshal(doc)
